@@ -194,6 +194,11 @@ def monitored_call(fn, args=(), kwargs=None, *, seed=None, timeout=20.0, label=N
     if d:
         rep.violations.append((f"{prefix}:gv-mutated:{label}", f"{label} modified gv: {' '.join(d)}"))
     if rep.status == "ok":
+        # the result (or a member of a returned tuple / list) must not BE one of the argument objects
+        members = [rep.result] + (list(rep.result) if isinstance(rep.result, (tuple, list)) else [])
+        given = [a for a in list(args) + list(kwargs.values()) if _plain_object(a) or isinstance(a, np.ndarray)]
+        if any(r is a for r in members for a in given):
+            rep.violations.append((f"{prefix}:alias-identity:{label}", f"{label} returned one of its argument objects itself"))
         res_arrays = arrays_of(rep.result)
         rep.n_res_arrays = len(res_arrays)
         for r in res_arrays:
